@@ -25,7 +25,9 @@ RULE = (
     'threshold handed over as python floats / float64 / float32; numeric data with a common '
     'offset of 1e6-1e8 and a spread of 0.5-100; int32 / int64 containers with |x| > 46341; '
     'all-negative and mixed-sign data for min/max; probabilities exactly 0.0 / 1.0 for the '
-    'categorical cross entropy. A mismatch is keyed (mechanism) by the input class of the '
+    'categorical cross entropy; Mean / MeanAndVariance / Var data with +inf / -inf among '
+    'finite values and no NaN (family statsinf), regrouped into five batchings (as given, '
+    'one batch, row by row, reversed, one accumulator per batch merged). A mismatch is keyed (mechanism) by the input class of the '
     'case and the position / metric it concerns, never by the value returned. '
     'Cases are drawn from random.Random(f(seed, chunk, index)). '
     'All ~30 derived rates / 17 ranking metrics are compared per case. Non-trivial = at '
@@ -74,10 +76,16 @@ ASSUMPTIONS = [
     'metric@t only at listed thresholds, within 2e-6 when a threshold is not a float32 '
     '(interpolation on the float32 threshold axis); reported thresholds within rtol 1e-7',
     'Mean / MeanAndVariance / Var batches are non-empty; |values| <= 1.1e8; NaN is the only '
-    'non-finite value; float64 arrays, or int32 / int64 arrays without NaN; tolerance atol = '
+    'non-finite value outside the statsinf family; float64 arrays, or int32 / int64 arrays without NaN; tolerance atol = '
     '1e-12 x scale with scale = max|x| (mean, total), spread^2 + 2e-3 max|x| spread (var: ~9 '
     'eps max|x| spread is the conditioning a stable algorithm cannot beat; a one-pass '
     'E[x^2]-mean^2 is off by eps max|x|^2), stddev tolerance derived from the var tolerance',
+    'statsinf: +inf / -inf are values: count counts them; total and mean are +inf (-inf) '
+    'when only that sign occurs in the column and NaN when both occur (what numpy reports '
+    'for the whole data); variance and stddev are NaN as soon as the column holds an inf; '
+    'infinite / NaN results must agree in kind, finite columns of the same 2-D input within '
+    'the usual tolerance; Mean accumulators are also read through their public count / '
+    'total properties',
     'when every value accumulated so far is NaN, Mean/MeanAndVariance keep their scalar '
     'initial state (nan, count 0) for 2-D input; same values, scalar shape - accepted and '
     'recorded as an observation, not compared',
@@ -137,6 +145,7 @@ REQUIRED = [
     'retr_empty_batch_checks', 'thr_tie_cases', 'stats_minmax_negative_max_cases',
     'stats_int_dtype_cases', 'misc_rreg_offset_cases', 'misc_rreg_int32_cases',
     'misc_xent_closed_interval_cases', 'misc_xent_zero_probability_cases',
+    'stats_inf_cases', 'stats_inf_batching_checks',
 ]
 EXHAUSTIVE = {'quick': False, 'thorough': False}
 CHUNK_TIMEOUT_S = {'quick': 240, 'thorough': 3000}
@@ -144,9 +153,10 @@ CHUNK_TIMEOUT_S = {'quick': 240, 'thorough': 3000}
 # (family, chunks, cases per chunk)
 _PLAN = {
     'quick': [('clsbig', 3, 2), ('cls', 8, 400), ('retr', 4, 400), ('thr', 1, 400),
-              ('stats', 4, 350), ('misc', 3, 400)],
+              ('stats', 4, 350), ('statsinf', 1, 300), ('misc', 3, 400)],
     'thorough': [('clsbig', 8, 8), ('cls', 50, 4000), ('retr', 26, 4000),
-                 ('thr', 6, 4000), ('stats', 24, 4000), ('misc', 19, 4000)],
+                 ('thr', 6, 4000), ('stats', 24, 4000), ('statsinf', 2, 4000),
+                 ('misc', 19, 4000)],
 }
 
 
@@ -222,5 +232,6 @@ def run_case(ctx, case):
     return
   if 'config' not in case and 'src' in case:
     from vlib.oracles import c07_gen
-    case = c07_gen.gen(case['family'], case['src']['rseed'], case['src']['index'])
+    case = c07_gen.gen(case['src'].get('generator', case['family']),
+                       case['src']['rseed'], case['src']['index'])
   _dispatch(ctx, case)
